@@ -591,7 +591,8 @@ class Run:
         except RecursionError as e:
             self.outcome = ("exc", "RecursionError", "")
         except Exception as e:  # noqa
-            self.outcome = ("exc", type(e).__name__, str(e)[:200])
+            phase = "run" if all(c.life in ("validated", "finalized") for c in self.comps.values()) else "connect"
+            self.outcome = ("exc", type(e).__name__, str(e)[:200], phase, err_class(e))
         return self.outcome
 
     def check_terminal(self):
